@@ -84,10 +84,14 @@ def build_real_so(flags=("-O1",), tag="real"):
     if tag == "real" and _so_path:
         return _so_path
     out = os.path.join(scratch(), "engine_%s.so" % tag)
-    cmd = ["g++", "-std=c++11", "-fPIC", "-shared", *flags, "-I" + ENGINE_SRC, os.path.join(ENGINE_SRC, "engine.cpp"), "-o", out]
-    r = subprocess.run(cmd, capture_output=True, text=True)
-    if r.returncode != 0:
-        raise HarnessError("building the engine failed: " + r.stderr[-800:])
+    from .common import flock
+    with flock("so_" + tag):
+        if not os.path.exists(out):
+            cmd = ["g++", "-std=c++11", "-fPIC", "-shared", *flags, "-I" + ENGINE_SRC, os.path.join(ENGINE_SRC, "engine.cpp"), "-o", out + ".tmp"]
+            r = subprocess.run(cmd, capture_output=True, text=True)
+            if r.returncode != 0:
+                raise HarnessError("building the engine failed: " + r.stderr[-800:])
+            os.replace(out + ".tmp", out)
     if tag == "real":
         _so_path = out
     return out
